@@ -34,7 +34,8 @@ CLAIMS = {
     "C06": ("other", "Structural clauses only: MSQueue/MoirQueue/BasketQueue/OptimisticQueue (HP, DHP) never dereference a node pointer read from "
             "a shared atomic before hazard-pointer protection (path typestate); the old head is disposed only after this thread's unlinking CAS "
             "succeeded and the embedded dummy is never retired; RWQueue head/tail pointers are touched only under their locks; FCQueue pairs an "
-            "enqueue with a dequeue only on an empty queue and collide() completes both once. FIFO order / linearizability NOT decided.",
+            "enqueue with a dequeue only on an empty queue and collide() completes both once; 'empty' is reported from a double-collected snapshot "
+            "(R06.5); after a failed head/tail re-validation nothing is published before the snapshot is retaken (R06.6). FIFO order / linearizability NOT decided.",
             "static analysis: path typestate (guard discipline), lockset and path-table rules", "DESIGN.md §4 C06"),
     "C07": ("other", "Path rules with affine value comparison over VyukovMPMCCycleQueue (value and intrusive variants): slot used only after the "
             "claiming CAS under the readiness test, payload access before the releasing sequence store, writer/reader sequence values agree "
